@@ -7,9 +7,17 @@ Decided:
                original domain; the equalisation is skipped only when no domain is given or the filter domain is a
                scalar step
   R-FLOW       _interpolate_domains pairs domains[i] with arrs[i] and axes[i], evaluates every interpolator on the same
-               new domain, and a scalar `axes` argument (including 0) reaches every interpolator
-Not decided (numerical): the first sentence — overlap end points, step selection, linear-interpolation values, unsorted
-domains, rejection of non-overlapping domains."""
+               new domain, and a scalar `axes` argument (including 0) reaches every interpolator; the common domain is a
+               function of the SET of sample points of each input domain (min / max / sort), never of the k-th stored
+               sample (descending and unsorted domains are inputs of the property)
+  R-VALUE      structural parts of the first sentence: the number of grid intervals is overlap / coarsest step rounded to
+               NEAREST (np.around / rint / int(x + 0.5); int() of a raw quotient, floor, ceil are violations); the grid
+               handed to the interpolators is a closed np.linspace(start, stop, num) — pinned to both ends of the
+               overlap by construction — not an accumulated start + k·step
+  R-DTYPE      the computed grid is not produced in a dtype taken from the input arrays; no input is cast to another
+               input's dtype; "same domain" is not decided with an absolute tolerance on domain coordinates
+Not decided (numerical): linear-interpolation values, exact end points for arbitrary float inputs, rejection of
+non-overlapping domains."""
 from __future__ import annotations
 from ..spec import arr, num, const, none, flag, estimator_fields, S, U_FILTER, U_SIGNAL, U_LAMBDA
 from .. import rules as R
